@@ -91,6 +91,16 @@ class BadStrBase(Exception):
         raise asyncio.CancelledError()
 
 
+class BoolRaises(Exception):
+    """An exception object whose truth value cannot be taken (an aggregate error whose __len__/__bool__ consults a closed resource)"""
+
+    def __bool__(self):
+        raise RuntimeError("the truth value of this exception cannot be taken")
+
+    def __len__(self):
+        raise RuntimeError("the length of this exception cannot be taken")
+
+
 class FalsyExc(Exception):
     """An exception object that is false in a boolean context (e.g. an aggregate error with no sub-errors)."""
 
@@ -181,9 +191,9 @@ register_exception_extractor(ExtRaise, _raising_extractor)
 EXC_WITNESSES = [lambda: ValueError("boom"), lambda: KeyboardInterrupt(), lambda: GeneratorExit(),
                  lambda: asyncio.CancelledError(), lambda: BadStr(), lambda: SystemExit(3),
                  lambda: KeyError("k"), lambda: FalsyExc("falsy"), lambda: EmptyLenExc(), lambda: NoModuleExc("nomod"),
-                 lambda: EmptyStrBadRepr(), lambda: BadInit(1, 2), lambda: Exception(), lambda: BadStrBase()]
+                 lambda: EmptyStrBadRepr(), lambda: BadInit(1, 2), lambda: Exception(), lambda: BadStrBase(), lambda: BoolRaises("no truth value")]
 DEST_ERRS = [lambda: DestErr("dest down"), lambda: DestErrBadStr(), lambda: TypeError("t"),
-             lambda: NoModuleExc("nomod"), lambda: FalsyExc("f"), lambda: BadStr(), lambda: BadStrBase()]
+             lambda: NoModuleExc("nomod"), lambda: FalsyExc("f"), lambda: BadStr(), lambda: BadStrBase(), lambda: BoolRaises("no truth value")]
 
 
 class Env:
